@@ -180,7 +180,9 @@ ResolveAs(s, sg, op) ==
    LET hit == s.cache # <<>> /\ s.cache[1].signer = sg                                   \* sigCache.signer.Equal(signer)
        ans == IF hit THEN s.cache[1].from ELSE FreshAns(s.mut, s.content, sg)
    IN [s EXCEPT !.res = Append(@, [signer |-> op, ans |-> ans, content |-> s.content, via |-> s.via]),
-                !.cache = IF ~hit /\ ans # "err" THEN <<[signer |-> sg, from |-> ans]>> ELSE @]
+                !.cache = IF ~hit /\ ans # "err" THEN <<[signer |-> sg, from |-> ans]>> ELSE @,
+                \* the sender is asked for through AsMessage as well, which takes tx.Hash() first: the hash cache is filled
+                !.hashc = IF @ = "none" THEN s.content ELSE @]
 ResolveOn(s, sg) == ResolveAs(s, sg, sg)
 HashOn(s) == LET ans == IF s.hashc # "none" THEN s.hashc ELSE s.content IN
              [s EXCEPT !.res = Append(@, [signer |-> "hash", ans |-> ans, content |-> s.content, via |-> s.via]), !.hashc = ans]
